@@ -1,6 +1,6 @@
 (* C03 — What is shipped is decided by .terraformignore semantics on archive paths. *)
 From Slug Require Import Base.Str Base.PathAlg Base.PathLemmas Ignore.Rules Ignore.Glob Ignore.GlobProofs Ignore.RulesProofs
-  Ignore.Prune Ignore.Defaults FS.FS FS.FSProofs Slug.Unpack Slug.Pack Slug.RoundTrip Slug.RoundTripPack Slug.PackIgnore.
+  Ignore.Prune Ignore.Defaults Ignore.LineProofs FS.FS FS.FSProofs Slug.Unpack Slug.Pack Slug.RoundTrip Slug.RoundTripPack Slug.PackIgnore.
 
 (* 1. The pattern-to-regexp translation implements the documented language:
       for every well-formed written pattern and every path (any bytes: the
@@ -13,6 +13,49 @@ Theorem C03_compile_correct :
   forall pat path, pat_ok pat = true ->
     tmatch (tokenize (pat_text pat)) path = gmatch pat (split_on slash path).
 Proof. exact compile_correct_all. Qed.
+
+(* 1b. What a line of a rule file means.  A line whose trimmed text is an
+      optional '!', an optional leading '/', the written form of a well-formed
+      pattern, and an optional trailing '/' becomes one rule: negated iff the
+      '!' is there, and matching a path exactly when the segment-wise
+      specification matches the pattern with a "**" segment in front unless
+      the line is anchored by the leading '/' (zero or more directories above:
+      C03_unanchored_means_any_depth) and a "**" segment behind when the line
+      ends in '/' (one or more segments below: a directory and everything
+      under it).  Surrounding white space is ignored; a line that starts with
+      '#' is a comment, which is why an unanchored, non-negated pattern may not
+      start with '#' or '!'. *)
+Theorem C03_line_meaning :
+  forall rs line (neg anch dirf : bool) pat,
+    pat_ok pat = true -> line <> [] ->
+    trim_space line = (if neg then [bang] else []) ++ body anch dirf pat ->
+    (neg = false -> anch = false ->
+       forall c r, pat_text pat = c :: r -> Ascii.eqb c hash = false /\ Ascii.eqb c bang = false) ->
+    read_line rs line
+    = POk (mkRule (pat_text (full_pat anch dirf pat)) neg false :: (if neg then mark_back rs else rs)).
+Proof. exact read_line_documented. Qed.
+
+Theorem C03_line_rule_matches :
+  forall anch dirf pat neg path, pat_ok pat = true ->
+    rule_match (mkRule (pat_text (full_pat anch dirf pat)) neg false) path
+    = gmatch (full_pat anch dirf pat) (split_on slash path).
+Proof. exact line_rule_matches. Qed.
+
+Theorem C03_unanchored_means_any_depth :
+  forall pat segs, pat <> [] ->
+    gmatch (GDouble :: pat) segs = true <-> exists above rest, segs = above ++ rest /\ gmatch pat rest = true.
+Proof. exact gmatch_unanchored. Qed.
+
+(* the line "  !/logs/*.txt/ " *)
+Example C03_line_instance :
+  let pat := [GSeg (map ALit (s2l "logs")); GSeg (AAnyMany :: map ALit (s2l ".txt"))] in
+  pat_ok pat = true /\
+  trim_space (s2l "  !/logs/*.txt/ ") = [bang] ++ body true true pat /\
+  read_line [] (s2l "  !/logs/*.txt/ ") = POk [mkRule (s2l "logs/*.txt/**") true false] /\
+  gmatch (full_pat true true pat) [s2l "logs"; s2l "a.txt"; s2l "x"] = true /\
+  gmatch (full_pat true true pat) [s2l "logs"; s2l "a.txt"] = false /\
+  gmatch (full_pat true true pat) [s2l "d"; s2l "logs"; s2l "a.txt"; s2l "x"] = false.
+Proof. vm_compute. repeat split. Qed.
 
 (* 2. The negations-after flag: from the pristine defaults a rule carries it
       exactly when a later rule is a negation; from any reachable state of the
@@ -158,6 +201,9 @@ Print Assumptions C03_last_match_wins.
 Print Assumptions C03_dominating_sound.
 Print Assumptions C03_prune_eq_filter.
 Print Assumptions C03_defaults.
+Print Assumptions C03_line_meaning.
+Print Assumptions C03_line_rule_matches.
+Print Assumptions C03_unanchored_means_any_depth.
 Print Assumptions C03_pack_ships_exactly_the_unexcluded.
 Print Assumptions C03_loaded_rules_have_sound_flags.
 Print Assumptions C03_keep_is_own_path.
